@@ -408,10 +408,17 @@ func (t *tlcreate) do(cs *connState, uid UID) (*rlcreate, error) {
 		}
 		ref.pathNode.addChild(newRef, t.Name)
 		ref.IncRef() // Acquire parent reference.
+
+		// Hold a reference until the fid is installed, as doWalk does:
+		// newRef is listed in the path tree from here on, and a rename
+		// that finds it there without a reference (TryIncRef) would
+		// skip it, leaving it under its old parent and name.
+		newRef.IncRef()
 		return nil
 	}); err != nil {
 		return nil, err
 	}
+	defer newRef.DecRef()
 
 	// Replace the fid reference.
 	verifPoint(cs.server, "tlcreate:created")
